@@ -36,6 +36,10 @@ pub struct Case {
     /// reference file: 0 plain, 1 gzip (one member), 2 gzip with two members (as bgzip writes)
     #[serde(default)]
     pub ref_gz: u8,
+    /// the second site gets the flanks of the first ((k-1)/2 bases on either side) and the other two bases as
+    /// alleles (first site A/C, second G/T): two loci of one split k-mer family, every (k-1)-mer still unique
+    #[serde(default)]
+    pub twin_flanks: bool,
 }
 
 fn case_strategy(with_ref: bool) -> BoxedStrategy<Case> {
@@ -49,10 +53,10 @@ fn case_strategy(with_ref: bool) -> BoxedStrategy<Case> {
         proptest::collection::vec((any::<u16>(), proptest::collection::vec(0u8..4, 2..10)), 1..6),
         proptest::collection::vec(any::<bool>(), 1..6),
         prop::sample::select(vec![1u8, 1, 2, 3, 4, 8]),
-        (prop::bool::weighted(0.3), prop::bool::weighted(0.3), any::<bool>(), any::<bool>(), prop_oneof![3 => Just(0u8), 2 => Just(1u8), 1 => Just(2u8), 1 => Just(3u8), 1 => Just(4u8)], prop_oneof![3 => Just(0u8), 1 => Just(1u8), 2 => Just(2u8)]),
+        (prop::bool::weighted(0.3), prop::bool::weighted(0.3), any::<bool>(), any::<bool>(), prop_oneof![3 => Just(0u8), 2 => Just(1u8), 1 => Just(2u8), 1 => Just(3u8), 1 => Just(4u8)], prop_oneof![3 => Just(0u8), 1 => Just(1u8), 2 => Just(2u8)], prop::bool::weighted(0.15)),
     )
-        .prop_map(move |(k, n_samples, material, lead, tail, sites, orient, threads, (ref_is_sample, ref_rc, ref_wrap, m04, m_sel, ref_gz))| Case {
-            k, n_samples, material, lead, tail, sites, orient, threads, with_ref, ref_is_sample, ref_rc, ref_wrap, m04, m_sel, ref_gz,
+        .prop_map(move |(k, n_samples, material, lead, tail, sites, orient, threads, (ref_is_sample, ref_rc, ref_wrap, m04, m_sel, ref_gz, twin_flanks))| Case {
+            k, n_samples, material, lead, tail, sites, orient, threads, with_ref, ref_is_sample, ref_rc, ref_wrap, m04, m_sel, ref_gz, twin_flanks,
         })
         .boxed()
 }
@@ -78,10 +82,29 @@ pub fn materialise(c: &Case) -> Result<Mat, String> {
     let last = *pos.last().unwrap();
     let len = last + k + gen::idx(c.tail, 2 * k + 1);
     let mut seen = std::collections::HashSet::new();
-    let anc = gen::unique_seq(&c.material, len, k - 1, false, &mut seen).ok_or("no unique extension")?;
+    let mut anc = gen::unique_seq(&c.material, len, k - 1, false, &mut seen).ok_or("no unique extension")?;
+    let twin = c.twin_flanks && pos.len() >= 2 && pos[0] >= (k - 1) / 2;
+    if twin {
+        let (h, p0, p1) = ((k - 1) / 2, pos[0], pos[1]);
+        let (l, r) = (anc[p0 - h..p0].to_vec(), anc[p0 + 1..p0 + 1 + h].to_vec());
+        anc[p1 - h..p1].copy_from_slice(&l);
+        anc[p1 + 1..p1 + 1 + h].copy_from_slice(&r);
+        anc[p0] = b'A';
+        anc[p1] = b'G';
+    }
     let mut sites = Vec::new();
     for (si, (pp, (_, rots))) in pos.iter().zip(c.sites.iter()).enumerate() {
         let ai = model::BASES.iter().position(|b| *b == anc[*pp]).unwrap();
+        if twin && si < 2 {
+            let pair: [u8; 2] = if si == 0 { [b'A', b'C'] } else { [b'G', b'T'] };
+            let mut alleles: Vec<u8> = (0..c.n_samples).map(|j| pair[rots[j % rots.len()] as usize % 2]).collect();
+            if alleles.iter().all(|a| *a == alleles[0]) {
+                let j = (si + 1) % c.n_samples;
+                alleles[j] = if alleles[j] == pair[0] { pair[1] } else { pair[0] };
+            }
+            sites.push((*pp, alleles));
+            continue;
+        }
         let mut alleles: Vec<u8> = (0..c.n_samples).map(|j| model::BASES[(ai + rots[j % rots.len()] as usize) % 4]).collect();
         if alleles.iter().all(|a| *a == alleles[0]) {
             let j = si % c.n_samples;
@@ -206,6 +229,7 @@ fn check_free(c: &Case, ctx: &Ctx) -> Outcome {
             if m.sites.len() >= 3 { cl.push(">=3_sites"); }
             if m.sites.iter().any(|(_, a)| { let mut x = a.clone(); x.sort(); x.dedup(); x.len() >= 3 }) { cl.push("multi_allelic"); }
             if c.threads > 1 { cl.push("threads>1"); }
+            if c.twin_flanks && m.sites.len() >= 2 { cl.push("two_sites_with_the_same_flanks_and_disjoint_alleles"); }
             if c.k >= 33 { cl.push("128bit"); }
             if c.m_sel % 5 == 1 { cl.push("-m_0"); }
             if c.m_sel % 5 != 0 { cl.push("-m_given"); }
@@ -434,6 +458,7 @@ fn check_ref(c: &Case, ctx: &Ctx) -> Outcome {
             if called == planted { cl.push("all_planted_called"); }
             if called > 0 { cl.push("some_called"); }
             if c.ref_rc { cl.push("reference_reverse_complemented"); }
+            if c.twin_flanks && m.sites.len() >= 2 { cl.push("two_sites_with_the_same_flanks_and_disjoint_alleles"); }
             if c.ref_is_sample { cl.push("reference_is_a_sample"); }
             if c.ref_gz % 3 == 1 { cl.push("reference_gzip"); }
             if c.ref_gz % 3 == 2 { cl.push("reference_gzip_two_members"); }
